@@ -5,6 +5,7 @@
 //   semc <prod> <cons> <k>             concurrent posts and blocking waits, all must return
 //   cond <waiters> <reps>              documented condition-variable protocol, every waiter must return
 //   condt <u|t per waiter> <reps> <timeout ms>   the same with timed waiters; signal only once all are blocked
+//   condx <u|t|l per waiter> <delay us> <timeout ms>   timed waits that run out, waiters that give up (t) or loop again (l); logs every step under the mutex
 //   pfs <i0> <i1> <nth> <max>          all interleavings of parallel_for at the hook points (deterministic scheduler), traces
 //   ths <kind> <n> <max>               same for thread kinds
 #include "common.h"
@@ -302,6 +303,52 @@ static std::string step(const Toks& t)
 				if (twake[w] - tsignal > timeout * 0.5) return "lost: waiter " + str(w) + " woke " + str((int)((twake[w] - tsignal) * 1000)) + " ms after the signal";
 		}
 		return "ok";
+	}
+	if (t[0] == "condx" && t.size() == 4) {
+		// the protocol with timed waits that DO run out and waiters that give up or loop again (u = untimed, t = timed and
+		// gives up on a time-out, l = timed and loops again): every step is recorded while the mutex is held, so the log
+		// is the real order of the critical sections; the Lean model (AslModel/ThreadTimed.lean) must accept it.
+		std::string kinds = t[1];
+		int delayus = (int)num(t[2]);
+		double timeout = num(t[3]) / 1000.0;
+		int W = (int)kinds.size();
+		bool ready = false;
+		Mutex mutex;
+		Condition cond(mutex);
+		std::vector<std::string> ev;
+		std::string outc(W, '?');
+		std::vector<Thread*> ts;
+		for (int w = 0; w < W; w++) {
+			char kind = kinds[w];
+			ts.push_back(new Thread([&, w, kind]() {
+				jitter();
+				mutex.lock();
+				ev.push_back("L" + str(w));
+				for (;;) {
+					if (ready) { ev.push_back("P" + str(w)); outc[w] = 'p'; break; }
+					ev.push_back("S" + str(w));
+					bool tmo = false;
+					if (kind == 'u') cond.wait(); else tmo = cond.wait(timeout);
+					ev.push_back("W" + str(w) + ":" + (tmo ? "1" : "0"));
+					if (tmo && kind == 't') { ev.push_back("G" + str(w)); outc[w] = 't'; break; }
+				}
+				ev.push_back("X" + str(w));
+				mutex.unlock();
+			}));
+		}
+		usleep(delayus);
+		mutex.lock();
+		ev.push_back("sL");
+		ready = true;
+		ev.push_back("sP");
+		cond.signal();
+		ev.push_back("sB");
+		ev.push_back("sU");
+		mutex.unlock();
+		for (size_t i = 0; i < ts.size(); i++) { ts[i]->join(); delete ts[i]; }
+		std::string tr;
+		for (size_t i = 0; i < ev.size(); i++) tr += (i ? "," : "") + ev[i];
+		return "out=" + outc + " trace=" + tr;
 	}
 	if (t[0] == "pfs" && t.size() == 5) {
 		int i0 = (int)num(t[1]), i1 = (int)num(t[2]), nth = (int)num(t[3]);
